@@ -60,6 +60,7 @@ void vp_reader()
         int a = h->a;
         int st1 = vp_g(G_STARTED);        // modifies started when the value was read
         int b = h->b;
+        vp_log(303, a * 100 + b);
         vp_assert(a == b, 303);           // (b) complete state
         vp_assert(a >= ret0, 304);        // (c) current: sees every modify that returned before
         vp_assert(a <= st1, 305);         //     and nothing that has not started
@@ -81,6 +82,7 @@ void vp_final()
     vp_assert(raw[0].a == total && raw[0].b == total, 309);   // (d) both copies went through the same states
     vp_assert(raw[1].a == total && raw[1].b == total, 310);
     auto h = g_lr->lock_shared();
+    vp_log(311, h->a);
     vp_assert(h->a == total, 311);
 }
 }
